@@ -683,10 +683,10 @@ def run_case(case, M, tier="quick"):
     hyps = ans[13]
     out["hyps"] = {"hasCosts": hyps[0] == "1", "nonneg": hyps[1] == "1", "posArg": hyps[2] == "1"}
     # the decidable hypotheses of the order / no-duplicates / coverage theorems hold on every real rule table (a dict)
-    names = ["nonnegW", "dictOK", "initFrontOK", "initCoverOK"]
-    for nm, v in zip(names, hyps[3:7]):
+    names = ["nonnegW", "dictOK", "initFrontOK", "initCoverOK", "closedOK"]
+    for nm, v in zip(names, hyps[3:8]):
         out["hyps"][nm] = v == "1"
-    if len(hyps) >= 7 and not all(out["hyps"][nm] for nm in names[1:]):
+    if len(hyps) >= 8 and not all(out["hyps"][nm] for nm in names[1:]):
         raise RuntimeError(f"a decidable hypothesis of the bee theorems fails on a real rule table: {out['hyps']}")
     if out["hyps"]["posArg"] == zero:
         raise RuntimeError("Lean hypothesis posArgCosts and the harness classifier disagree")
